@@ -33,6 +33,11 @@ pub struct Ctx<'a> {
     pub spec: &'a CmdSpec,
     pub explicit: BTreeSet<String>,
     pub ob: &'a Obs,
+    /// strictest reading (used by C10 to decide whether a rejection is *justified*): a missing
+    /// requirement is excused only by a negating subcommand, never by a conflicting or
+    /// exclusive argument. The lenient reading (C03: may the parse succeed?) accepts every documented
+    /// exemption. Between the two, both outcomes are compatible with the documentation.
+    pub strict: bool,
 }
 
 fn groups_of<'a>(spec: &'a CmdSpec, id: &str) -> Vec<&'a str> {
@@ -141,19 +146,65 @@ fn present(ctx: &Ctx<'_>, id: &str) -> bool {
     }
 }
 
+/// A conflict declared against the group id itself (either direction), not via its members.
+fn conflicts_with_group_itself(spec: &CmdSpec, x: &str, gid: &str) -> bool {
+    let mut xs: Vec<String> = vec![x.to_string()];
+    xs.extend(groups_of(spec, x).iter().map(|s| s.to_string()));
+    for xi in &xs {
+        if xi == gid {
+            continue;
+        }
+        if let Some(a) = spec.arg(xi) {
+            if a.conflicts.iter().any(|c| c == gid) {
+                return true;
+            }
+        }
+        if let Some(g) = spec.groups.iter().find(|g| &g.id == xi) {
+            if g.conflicts.iter().any(|c| c == gid) {
+                return true;
+            }
+        }
+        if let Some(g) = spec.groups.iter().find(|g| g.id == gid) {
+            if g.conflicts.iter().any(|c| c == xi) {
+                return true;
+            }
+        }
+    }
+    spec.arg(x).map(|a| a.exclusive).unwrap_or(false)
+}
+
 fn excused(ctx: &Ctx<'_>, missing: &str) -> Option<String> {
+    if ctx.strict {
+        // strictest reading: nothing excuses a missing requirement (except a negating subcommand,
+        // handled by the caller)
+        return None;
+    }
     for p in &ctx.explicit {
         if p == missing {
+            continue;
+        }
+        if ctx.strict && is_group(ctx.spec, missing) {
+            let ms = members(ctx.spec, missing);
+            if conflicts_with_group_itself(ctx.spec, p, missing) || (!ms.is_empty() && ms.iter().all(|m| *m != p && conflicts(ctx.spec, p, m))) {
+                return Some(p.clone());
+            }
             continue;
         }
         if conflicts(ctx.spec, p, missing) {
             return Some(p.clone());
         }
         if is_group(ctx.spec, missing) {
-            // lenient reading for groups: a present arg conflicting with ANY member excuses it
-            for m in members(ctx.spec, missing) {
-                if m != p && conflicts(ctx.spec, p, m) {
+            let ms = members(ctx.spec, missing);
+            if ctx.strict {
+                if !ms.is_empty() && ms.iter().all(|m| *m != p && conflicts(ctx.spec, p, m)) {
                     return Some(p.clone());
+                }
+            } else {
+                // lenient reading for groups: a present arg conflicting with ANY member excuses it
+                for m in ms {
+                    if m != p && conflicts(ctx.spec, p, m) {
+                        return Some(p.clone());
+                    }
                 }
             }
         }
@@ -182,7 +233,11 @@ pub fn explicit_set(spec: &CmdSpec, ob: &Obs) -> BTreeSet<String> {
 
 /// Evaluate every declared relation of one level on a successful parse's observation.
 pub fn evaluate(spec: &CmdSpec, ob: &Obs) -> Vec<Broken> {
-    let ctx = Ctx { spec, explicit: explicit_set(spec, ob), ob };
+    evaluate_with(spec, ob, false)
+}
+
+pub fn evaluate_with(spec: &CmdSpec, ob: &Obs, strict: bool) -> Vec<Broken> {
+    let ctx = Ctx { spec, explicit: explicit_set(spec, ob), ob, strict };
     let mut out = vec![];
     let ex: Vec<&String> = ctx.explicit.iter().collect();
     // conflicts / exclusive / non-multiple groups
